@@ -4,8 +4,8 @@ cd /verif
 tier="${1:-quick}"
 for id in $(python3 -c "import json;print(' '.join(c['property_id'] for c in json.load(open('MANIFEST.json'))['checks']))"); do
   s=$(date +%s)
-  ./check $id --tier $tier > /tmp/runall_$id.log 2>&1
+  timeout ${VERIF_TIMEOUT:-3600} ./check $id --tier $tier > /tmp/runall_${tier}_$id.log 2>&1
   rc=$?
   e=$(date +%s)
-  echo "$id exit=$rc time=$((e-s))s $(grep -c '^VIOLATION' /tmp/runall_$id.log) violations; $(grep -c '^INCONCLUSIVE' /tmp/runall_$id.log) inconclusive"
+  echo "$id exit=$rc time=$((e-s))s $(grep -c '^VIOLATION' /tmp/runall_${tier}_$id.log) violations; $(grep -c '^INCONCLUSIVE' /tmp/runall_${tier}_$id.log) inconclusive"
 done
